@@ -1325,6 +1325,21 @@ class Interp:
             for o in outs:
                 yield o
 
+    def state_effects(self, before, after, own_fid=None):
+        """what a piece of code changed besides allocating new objects: None, or a short description"""
+        if not self._same_store(before, after):
+            return "an existing object / container"
+        for k, v in after.ghost.items():
+            if before.ghost.get(k, self) is v:
+                continue
+            if isinstance(k, tuple) and k and k[0] in ("modglobal", "classattr", "cell") and not (k[0] == "cell" and k[1] == own_fid) and not (
+                    k[0] == "modglobal" and len(k) == 2):
+                return "%s %s" % (k[0], k[-1])
+        for fa, fb in zip(before.frames, after.frames):
+            if fa.vars.keys() != fb.vars.keys() or any(fa.vars[n] is not fb.vars[n] for n in fa.vars):
+                return "a variable of an enclosing function"
+        return None
+
     def _same_store(self, a, b):
         if a.store.keys() != b.store.keys():
             # allocations are fine as long as old entries are unchanged
@@ -1532,6 +1547,10 @@ class Interp:
             from .loops import iterate_watched
 
             items, watch = iterate_watched(self, st1, it)
+            from .loops import sized_watch
+
+            if sized_watch(st1, it):
+                watch = (watch or ()) + sized_watch(st1, it)
 
             def run(st2, k, it=it, items=items, watch=watch):
                 if k > 0 and (watch or isinstance(it, Ref)):
@@ -1539,7 +1558,7 @@ class Interp:
                     from .loops import lazy_check, _same_items
 
                     lazy_check(st2, watch)
-                    if isinstance(it, Ref) and st2.get(it).kind == "list" and not _same_items(st2.get(it).items, items):
+                    if isinstance(it, Ref) and st2.get(it).kind == "list" and type(st2.get(it)).__name__ != "IterE" and not _same_items(st2.get(it).items, items):
                         raise Unsupported("a list is changed by the comprehension that iterates it")
                 if k == len(items):
                     yield st2, None
@@ -1632,7 +1651,16 @@ class Interp:
         from .loops import lazy_begin, lazy_end
 
         old = lazy_begin(st)
+        before = st.fork()
         for st1, r in self.ev_ListComp(node, st):
+            if not isinstance(r, Exc):
+                eff = self.state_effects(before, st1)
+                if eff is not None:
+                    raise Unsupported("generator expression changes state (%s): evaluated eagerly its side effects would come too early" % eff)
+            if isinstance(r, Ref):
+                from .values import IterE
+
+                st1.store[r.id] = IterE(st1.get(r).items)  # a generator object is a one-shot iterator, not a list
             lazy_end(st1, old, r)
             yield st1, r
 
@@ -1818,6 +1846,21 @@ class Interp:
             # class deriving from the builtin tuple (e.g. component._DimensionLink): tuple payload + methods
             items = tuple(self.iterate(args[0], st)) if args else ()
             yield st, st.alloc(ObjE(cls, {"__tuple__": items}))
+            return
+        nw, nw_where = self.class_lookup(cls, "__new__")
+        if isinstance(nw, FuncVal):
+            # a user-defined __new__ makes the instance: Cls(*a) = Cls.__new__(Cls, *a), then __init__(*a) on the result if it
+            # is an instance of Cls.  (Ignoring it would drop whatever __new__ sets up or returns.)
+            if self.dataclass_fields(cls) is not None or any(isinstance(c, BuiltinClass) and c.name != "object" for c in self.mro(cls)):
+                raise Unsupported("__new__ on a dataclass / a class with a builtin base")
+            init, _ = self.class_lookup(cls, "__init__")
+            for st1, o in self.call(nw, [cls] + list(args), kwargs, st):
+                if isinstance(o, Exc) or init is None or not (
+                        isinstance(o, Ref) and st1.get(o).kind == "obj" and self.is_subclass(st1.get(o).cls, cls)):
+                    yield st1, o
+                    continue
+                for st2, r in self.call(init, [o] + list(args), kwargs, st1):
+                    yield st2, (r if isinstance(r, Exc) else o)
             return
         obj = st.alloc(ObjE(cls))
         if self.is_subclass(cls, BuiltinClass("list", list)):
@@ -2039,11 +2082,20 @@ class Interp:
                         return True
                     outs = list(self.call(m2, [v], {}, st))
                     if len(outs) == 1 and not isinstance(outs[0][1], Exc):
-                        return self.truth(outs[0][1], st)
+                        n = outs[0][1]
+                        # CPython: __len__ must return an int >= 0 (ValueError / TypeError otherwise)
+                        if isinstance(n, bool) or not (isinstance(n, int) or (is_z3(n) and z3.is_int(n))):
+                            raise Unsupported("__len__ returning a non-int in a truth test")
+                        if (isinstance(n, int) and n < 0) or (is_z3(n) and self.feasible(st, n < 0)):
+                            raise Unsupported("__len__ possibly negative in a truth test (ValueError in CPython)")
+                        return self.truth(n, st)
                     raise Unsupported("__len__ forks in truth test")
                 outs = list(self.call(m, [v], {}, st))
                 if len(outs) == 1 and not isinstance(outs[0][1], Exc):
-                    return self.truth(outs[0][1], st)
+                    b = outs[0][1]
+                    if not (isinstance(b, bool) or (is_z3(b) and z3.is_bool(b))):
+                        raise Unsupported("__bool__ returning a non-bool (TypeError in CPython)")  # e.g. 1, None
+                    return self.truth(b, st)
                 raise Unsupported("__bool__ forks in truth test")
             if e.kind == "nd":
                 if len(e.data) == 1:
